@@ -718,20 +718,32 @@ func (hm *HostMap) GetPreferredRanges() []netip.Prefix {
 	return *hm.preferredRanges.Load()
 }
 
+// ForEachVpnAddr calls f for every primary hostinfo.
+// f runs without the hostmap lock held, it may take other locks (f.e. rebuilding a RemoteList) that are held elsewhere
+// while the hostmap is queried.
 func (hm *HostMap) ForEachVpnAddr(f controlEach) {
 	hm.RLock()
-	defer hm.RUnlock()
-
+	hosts := make([]*HostInfo, 0, len(hm.Hosts))
 	for _, v := range hm.Hosts {
+		hosts = append(hosts, v)
+	}
+	hm.RUnlock()
+
+	for _, v := range hosts {
 		f(v)
 	}
 }
 
+// ForEachIndex calls f for every hostinfo, see ForEachVpnAddr for the locking
 func (hm *HostMap) ForEachIndex(f controlEach) {
 	hm.RLock()
-	defer hm.RUnlock()
-
+	hosts := make([]*HostInfo, 0, len(hm.Indexes))
 	for _, v := range hm.Indexes {
+		hosts = append(hosts, v)
+	}
+	hm.RUnlock()
+
+	for _, v := range hosts {
 		f(v)
 	}
 }
